@@ -272,6 +272,12 @@ func (p *Program) modifiesKeys(x *Exec, fn *ssa.Function, fc *FuncContract) (key
 				}
 			}
 			keys = append(keys, x.keysOfObject(pt.Elem(), path)...)
+		case "map":
+			t := p.typeOfModBase(fn, it.base)
+			if t == nil || mapTypeOf(t) == nil {
+				return nil, false, true
+			}
+			keys = append(keys, mapHeapKeys(t)...)
 		case "elems":
 			// type of the base expression: parameter or field path of a parameter
 			t := p.typeOfModBase(fn, it.base)
